@@ -46,6 +46,13 @@ class Color(enum.Enum):
     BLUE = 2
 
 
+class Perm(enum.Flag):
+    """a Flag enum: its instances are not only the named members (R | W and Perm(0) exist)"""
+
+    R = 1
+    W = 2
+
+
 class FSub(float):
     """a user-defined float subclass (numeric promotion must reach it: float subclass -> complex)"""
 
@@ -97,6 +104,10 @@ def to_value(t) -> Value:
         return KnownValue(Color.RED)
     if k == "enum":
         return TypedValue(Color)
+    if k == "flag":
+        return TypedValue(Perm)
+    if k == "typeobj":
+        return TypedValue(type)
     if k == "cls":
         return TypedValue(CLASSES[t[1]])
     if k == "type":
@@ -158,6 +169,10 @@ def to_typing(t):
         return Literal[Color.RED]
     if k == "enum":
         return Color
+    if k == "flag":
+        return Perm
+    if k == "typeobj":
+        return type
     if k == "cls":
         return CLASSES[t[1]]
     if k == "type":
@@ -232,6 +247,10 @@ def member(o, t) -> bool:
         return o is Color.RED
     if k == "enum":
         return isinstance(o, Color)
+    if k == "flag":
+        return isinstance(o, Perm)
+    if k == "typeobj":
+        return isinstance(o, type)
     if k == "cls":
         return isinstance(o, CLASSES[t[1]])
     if k == "type":
@@ -357,7 +376,7 @@ def _admits_str(t) -> bool:
 
 OBJECT_KINDS = ["int", "bool", "str", "none", "float", "tuple0", "tuple1", "tuple2", "tuple_is", "list0", "list1", "list2",
                 "dict0", "dict_a", "dict_ab", "dict_an", "dict_a2", "set1", "fset1", "bytes0", "bytes1", "enum", "instA", "instB", "clsA", "clsB", "clsint",
-                "fsub", "isub", "cplx"]
+                "fsub", "isub", "cplx", "flagR", "flagRW", "flag0"]
 
 
 def make_object(kind: str, oi, oj, s):
@@ -416,6 +435,12 @@ def make_object(kind: str, oi, oj, s):
         return B
     if kind == "clsint":
         return int
+    if kind == "flagR":
+        return Perm.R
+    if kind == "flagRW":
+        return _FLAG_RW
+    if kind == "flag0":
+        return _FLAG_0
     if kind == "fsub":
         return _FSUB
     if kind == "isub":
@@ -427,6 +452,8 @@ def make_object(kind: str, oi, oj, s):
 
 _INST_A = A()
 _INST_B = B()
+_FLAG_RW = Perm.R | Perm.W
+_FLAG_0 = Perm(0)
 _FSUB = FSub(2.5)
 _ISUB = ISub(7)
 
@@ -585,6 +612,10 @@ def _compatible_kinds(tb) -> List[str]:
         return ["int"]
     if k in ("lit_enum", "enum"):
         return ["enum"]
+    if k == "flag":
+        return ["flagR", "flagRW", "flag0"]
+    if k == "typeobj":
+        return ["clsA", "clsB", "clsint"]
     if k == "cls":
         return ["instA", "instB"] if tb[1] == "A" else ["instB"]
     if k == "type":
